@@ -256,6 +256,42 @@ def _guarded(g, f):
     return res
 
 
+_SIG = {}
+
+
+def _signature(a):
+    k = a.const.get_id()
+    if k not in _SIG:
+        names = {}
+        stack, seen = [a.body], set()
+        while stack:
+            t = stack.pop()
+            if t.get_id() in seen:
+                continue
+            seen.add(t.get_id())
+            if z3.is_app(t):
+                d = t.decl()
+                if d.kind() == z3.Z3_OP_UNINTERPRETED and t.num_args() > 0:
+                    names[d.name().split('!')[0]] = names.get(d.name().split('!')[0], 0) + 1
+                stack.extend(t.children())
+        _SIG[k] = (a.body.decl().kind(), names, len(seen))
+    return _SIG[k]
+
+
+def _similar(a1, a2):
+    k1, n1, s1 = _signature(a1)
+    k2, n2, s2 = _signature(a2)
+    if k1 != k2:
+        return False
+    if max(s1, s2) > 3 * min(s1, s2) + 5:
+        return False
+    keys = set(n1) | set(n2)
+    if not keys:
+        return True
+    common = set(n1) & set(n2)
+    return len(common) >= 0.6 * len(keys)
+
+
 class AxiomStore(object):
     """Sum axioms (rules R1/R3) generated once per atom / pair and reused across stages."""
 
@@ -285,7 +321,7 @@ class AxiomStore(object):
         return self.pair[k]
 
 
-def sum_axioms(store, core_terms, all_terms, pairwise, wide):
+def sum_axioms(store, core_terms, all_terms, pairwise, wide, goal_terms=None):
     """Sound facts about sum atoms (rules R1, R3 of DESIGN.md):
       sign:  S < 0  =>  body(j*) < 0 for a witness 0 <= j* < n   (and S > 0 likewise)
       pair:  S1 < S2 => body1(j*) < body2(j*) for a witness
@@ -297,8 +333,20 @@ def sum_axioms(store, core_terms, all_terms, pairwise, wide):
     ax = []
     for a in (every if wide else core):
         ax.extend(store.sign_axioms(a))
-    if pairwise:
-        goal_atoms = core[:10]
+    if pairwise == 'goal':
+        ga = SUMS.atoms_in(goal_terms)[:8]
+        n = 0
+        for a1 in ga:
+            for a2 in every[:60]:
+                if a1 is a2 or z3.is_real(a1.body) != z3.is_real(a2.body) or not _similar(a1, a2):
+                    continue
+                ax.append(store.pair_axiom(a1, a2))
+                ax.append(store.pair_axiom(a2, a1))
+                n += 1
+                if n > 12:
+                    break
+    elif pairwise:
+        goal_atoms = (SUMS.atoms_in(goal_terms) if goal_terms else core)[:10]
         others = every[:24]
         for a1 in goal_atoms:
             for a2 in others:
@@ -352,6 +400,7 @@ STAGES = (
     # (terms of ground hyps, rounds, pairwise, unfold definitional axioms, wide sign axioms, timeout fraction)
     (False, 1, False, False, False, 0.15),
     (True, 2, False, False, False, 0.3),
+    (True, 2, 'goal', False, False, 0.4),
     (True, 2, False, True, True, 0.5),
     (True, 3, True, True, True, 1.0),
 )
@@ -399,8 +448,10 @@ def _prove_one(ground, foralls, guards, goal, timeout_ms, want_model):
     for stage, (use_ground_terms, max_rounds, pairwise, unfold, wide, tfrac) in enumerate(STAGES):
         final = stage == len(STAGES) - 1
         base = list(ground) + list(guards)
-        if stage == 2 and not any(f.lazy for f in foralls):
+        if stage == 3 and not any(f.lazy for f in foralls):
             continue        # nothing new to unfold
+        if pairwise == 'goal' and len(SUMS.atoms_in([goal])) < 2:
+            continue
         ints, reals, pos = {}, {}, {}
         _collect_terms([goal] + list(guards), ints, reals, pos=pos)
         if use_ground_terms:
@@ -408,7 +459,7 @@ def _prove_one(ground, foralls, guards, goal, timeout_ms, want_model):
         inst = []
         done = set()
         budget = [MAX_INST if final else 1500]
-        ax, natoms = sum_axioms(store, core, core, pairwise, wide)
+        ax, natoms = sum_axioms(store, core, core, pairwise, wide, goal_terms=[goal])
         _collect_terms(ax, ints, reals, pos=pos)
         rounds = 0
         all_foralls = [f for f in foralls if unfold or not f.lazy]
@@ -420,7 +471,7 @@ def _prove_one(ground, foralls, guards, goal, timeout_ms, want_model):
             n_before = len(ints)
             _collect_terms(inst[before:], ints, reals, pos=pos)
             if wide or pairwise:
-                ax2, natoms2 = sum_axioms(store, core, core + inst, pairwise, wide)
+                ax2, natoms2 = sum_axioms(store, core, core + inst, pairwise, wide, goal_terms=[goal])
                 if natoms2 > natoms:
                     ax, natoms = ax2, natoms2
                     _collect_terms(ax, ints, reals, pos=pos)
